@@ -495,6 +495,12 @@ var goodDecls = []string{
 	"func Spawn%[1]d() {\n\tv := new(uint64)\n\tgo func() {\n\t\t*v = Sum%[2]d(C%[3]d)\n\t}()\n}\n",
 }
 
+var sameNameVariants = []string{
+	"type H struct {\n\thook func(uint64) uint64\n\tn    uint64\n}\n\nfunc CallH(h *H) uint64 {\n\treturn h.hook(1) + h.n\n}\n",
+	"type H struct {\n\tn uint64\n}\n\nfunc (h *H) hook(x uint64) uint64 {\n\treturn x + h.n\n}\n\nfunc CallH(h *H) uint64 {\n\treturn h.hook(1) + h.n\n}\n",
+	"type H struct {\n\tn    bool\n\thook uint64\n}\n\nfunc CallH(h *H) uint64 {\n\treturn h.hook\n}\n",
+}
+
 // documented rejections (testdata/negative-tests of the repo)
 var badDecls = []string{
 	"func Bad%[1]d(xs []uint64) uint64 {\n\tvar sum uint64\n\tfor _, x := range xs {\n\t\tsum += x\n\t\tbreak\n\t}\n\treturn sum\n}\n",
@@ -504,8 +510,9 @@ var badDecls = []string{
 }
 
 type genInfo struct {
-	hasErr  []bool
-	imports [][]string
+	sameName int // packages that declare the same-named type H (with differing content)
+	hasErr   []bool
+	imports  [][]string
 }
 
 func genModule(t *rapid.T) (gmod.Module, []int, genInfo) {
@@ -575,6 +582,13 @@ func genModule(t *rapid.T) (gmod.Module, []int, genInfo) {
 		// declarations: a base set, extras, possibly documented rejections
 		var decls []string
 		decls = append(decls, "func F() {\n}\n", exportedDecls)
+		// a type of the SAME name in several packages but with different content: hook is a
+		// func-typed field in one package, a method in another, a plain field in a third (seeded
+		// change C06-7: information cached under the unqualified type name)
+		if hv := gen.Range(t, "sameNameType", 0, 5); hv >= 1 && hv <= 3 {
+			decls = append(decls, sameNameVariants[hv-1])
+			info.sameName++
+		}
 		id := 0
 		var sums, consts, structs []int
 		add := func(k int) {
